@@ -341,6 +341,22 @@ class Ref:
         n = self.num
         if name == 'len':
             return Fraction(len(self._list(args[0])))
+        if name == 'size':
+            # "Len / Size / Dim: exact integer counts, no rounding" (derived semantics, Lists)
+            t = self._list(args[0])
+            for _ in range(self._int(args[1])):
+                if not t:
+                    raise Stuck('size of an empty dimension')
+                t = self._list(t[0])
+            return Fraction(len(t))
+        if name == 'dim':
+            t = args[0]; d = 0
+            while isinstance(t, list):
+                d += 1
+                if not t:
+                    break
+                t = t[0]
+            return Fraction(d)
         if name == 'range':
             iv = [self._int(a) for a in args]
             return [Fraction(k) for k in range(*iv)]
